@@ -83,6 +83,8 @@ class _Again:
 
     def string(self, name, n, alpha):
         if self.d.symbolic:
+            if name not in self.d.vars:
+                return self.d.string(name, n, alpha)
             kind, vs = self.d.vars[name]
             from engines.pysym.core import mk
             return mk(vs)
@@ -95,6 +97,10 @@ class _Again:
         if self.d.symbolic:
             raise RuntimeError('choice re-issue not supported')
         return self.d.values[name]
+
+    def pick(self, name, seq):
+        seq = list(seq)
+        return seq[self.choice(name, len(seq))]
 
 
 def obligations(tier):
